@@ -42,7 +42,7 @@ CHECKS.update({
     "C09": dict(
         engine="E1 SymArray (z3 over aliasing)",
         cat=TV,
-        text="Every argument (and its base buffer) is snapshotted cell-wise before the real call on SymArrays in 5 memory layouts (contiguous, transposed view, sliced view, stride-0 broadcast view, read-only); afterwards z3 decides whether any protected cell can differ for some contents/coordinates. Views are numpy's real views, stores go through the symbolic store model.",
+        text="Every argument (and its base buffer) is snapshotted cell-wise before the real call on SymArrays in 5 memory layouts (contiguous, transposed view, sliced view, stride-0 broadcast view, read-only); afterwards z3 decides whether any protected cell can differ for some contents/coordinates. Views are numpy's real views, stores go through the symbolic store model. Objects passed as sizes/options (lists, tuples, numpy arrays and scalars) are compared concretely: contents, type, shape, dtype and flags.",
         note="Trusted: object-dtype buffers share numpy's view/copy semantics; symbolic store model; z3. dtype itself is not varied. Family bounds as C01.",
         tech="symbolic execution of real code with alias-preserving buffers + SMT query on cell changes",
         ref="DESIGN.md §3 C09",
@@ -50,7 +50,7 @@ CHECKS.update({
     "C13": dict(
         engine="E1 SymArray (z3) + concrete monitors",
         cat=TV,
-        text="For every sampled subset of argument positions replaced by factories (4 signature kinds) z3 proves OP(..factory..) == OP(..factory's tensor..) for all contents; the shape/keywords each factory receives and the invocation counts (graph=True, first run, cached repeat, rejected call, misbehaving factory) are observed concretely on the same runs.",
+        text="For every sampled subset of argument positions replaced by factories (4 signature kinds) z3 proves OP(..factory..) == OP(..factory's tensor..) for all contents; the shape/keywords each factory receives and the invocation counts (graph=True, first run, cached repeat, rejected call, misbehaving factory incl. array-likes of the right shape) are observed concretely on the same runs; factories are functions, partials, bound methods and callable objects.",
         note="Solver decides result equality; shapes/keywords/counts are concrete observations (stated in evidence). Family bounds as C01.",
         tech="relational symbolic execution (factory vs tensor) + SMT equivalence; concrete invocation monitor",
         ref="DESIGN.md §3 C13",
@@ -118,7 +118,7 @@ CHECKS.update({
     "C11": dict(
         engine="E3 CrossHair",
         cat="other",
-        text="CrossHair executes the real BackendRegistryState (_get, _get_by_name, _get_by_tensors, _register_on_import, _check_new_imports, _run_factory, _enter/_exit) on registries of synthetic Backend/InvalidBackend objects; priorities are symbolic unbounded integers (all values and ties) and the argument-type tuple is a symbolic selector; configurations, registration orders, lazy/eager registration with imported/not-imported modules, failing factories and one-step histories are enumerated one condition each. The result must equal a short specification transcribed from the documentation.",
+        text="CrossHair executes the real BackendRegistryState (_get, _get_by_name, _get_by_tensors, _register_on_import, _check_new_imports, _run_factory, _enter/_exit) on registries of synthetic Backend/InvalidBackend objects; priorities are symbolic unbounded integers (all values and ties) and the argument-type tuple is a symbolic selector; configurations, registration orders, lazy/eager registration with imported/not-imported modules, failing factories and one-step histories are enumerated one condition each; the two synthetic frameworks' tensor classes share their bare class name. The result must equal a short specification transcribed from the documentation.",
         note="Real framework imports are outside (not installed); sys.modules is stubbed by pre-seeding seen_module_names. 57 conditions (quick).",
         tech="CrossHair symbolic execution of the real registry state machine against a specification function",
         ref="DESIGN.md §3 C11",
@@ -129,7 +129,7 @@ CHECKS.update({
     "C06": dict(
         engine="E3 CrossHair (key collisions) + cold/warm replay",
         cat="other",
-        text="PARTIAL. Reduction: a warm call differs from a cold one only if two calls with equal cache keys have different cold outcomes, or a failing call leaves state behind. CrossHair searches einx's real key path (_freeze_args/_freeze_value + functools._make_key) for argument pairs of different type that share a key; every pair found (and the CPython-equal representatives 2/2.0, 1/True, 1.0/True) is replayed through the public API in every argument slot, both orders, with and without graph=True: second call in a fresh interpreter vs. after the first call. Failing calls at parse/solve/trace/run time are followed by a valid call and compared the same way, including context-stack depths.",
+        text="PARTIAL. Reduction: a warm call differs from a cold one only if two calls with equal cache keys have different cold outcomes, or a failing call leaves state behind. CrossHair searches einx's real key path (_freeze_args/_freeze_value + functools._make_key) for argument pairs of different type that share a key; every pair found (and the CPython-equal representatives 2/2.0, 1/True, 1.0/True) is replayed through the public API in every argument slot, both orders, with and without graph=True: second call in a fresh interpreter vs. after the first call. Failing calls at parse/solve/trace/run time are followed by a valid call and compared the same way, including context-stack depths; context histories (plain call, then the call inside another backend context) and factory histories (short-lived factory objects of 6-9 signature kinds, one kind after the other) are compared cold vs. warm.",
         note="CrossHair cannot confirm absence of collisions (hash/== realise symbolic values): no counterexample = inconclusive. Arbitrary long histories are covered only through the reduction; compilation determinism is C16's subject.",
         tech="CrossHair counterexample search over the real cache-key functions + differential cold/warm replay",
         ref="DESIGN.md §3 C06",
@@ -140,8 +140,8 @@ CHECKS.update({
     "C10": dict(
         engine="E4 z3 bounded model checking",
         cat="model_checking",
-        text="PARTIAL (registry part). The read/compute/write micro-steps of BackendRegistry are re-derived from the AST of backend.py at every run (which methods hold the lock, read and write self.state); 2-3 threads run short programs of get / enter / exit / register; the schedule is a vector of symbolic thread ids; z3 searches for a schedule whose per-call observations and final state match no interleaving of whole calls (linearizability). The abstract call semantics are validated against the real BackendRegistryState on all small states; a sat schedule is replayed with real threads gated at the read/write boundaries.",
-        note="Assumed: functools.cache atomic per call; tracing/device/namespace stacks are thread-local (inventory scanned and listed). Bounds: 2 threads (3 thorough), <= 4 calls each, with-stack depth 4.",
+        text="PARTIAL (registry and tracing context stack). The read/compute/write micro-steps of BackendRegistry are re-derived from the AST of backend.py at every run (which methods hold the lock, read and write self.state); 2-3 threads run short programs of get / enter / exit / register; the schedule is a vector of symbolic thread ids; z3 searches for a schedule whose per-call observations and final state match no interleaving of whole calls (linearizability). The abstract call semantics are validated against the real BackendRegistryState on all small states; a sat schedule is replayed with real threads gated at the read/write boundaries. The tracing context stack (tracer.graph.depend_on) is classified per-thread/shared from the AST, the classification is validated with two real threads, and z3 searches the push/read/pop interleavings of two calls for a read that sees another call's entry; sat schedules are replayed through the public API with gated threads.",
+        note="Assumed: functools.cache atomic per call; device/namespace stacks of the torch/array-api adapters are outside (frameworks not installed). Bounds: 2 threads (3 thorough), <= 4 calls each, with-stack depth 4.",
         tech="SMT-based bounded model checking of thread interleavings (linearizability) + gated-thread replay",
         ref="DESIGN.md §3 C10",
     ),
@@ -151,7 +151,7 @@ CHECKS.update({
     "C16": dict(
         engine="E1 SymArray (z3) over seed-enumerated programs",
         cat=TV,
-        text="PARTIAL. The configuration quantifier (PYTHONHASHSEED, uuid draws) is enumerated: every corpus call is compiled in 8 (64 thorough) fresh interpreters with different hash seeds. The data quantifier is decided by the solver: whenever the generated texts differ between seeds they are executed on the same SymArrays (symbolic contents, symbolic duplicate-capable coordinates) and z3 proves them equal for all contents; identical texts are discharged syntactically. Exception classes across seeds and the two graph=True texts within one process are compared directly.",
+        text="PARTIAL. The configuration quantifier (PYTHONHASHSEED, uuid draws) is enumerated: every corpus call is compiled in 8 (64 thorough) fresh interpreters with different hash seeds. The data quantifier is decided by the solver: whenever the generated texts differ between seeds they are executed on the same SymArrays (symbolic contents, symbolic duplicate-capable coordinates) and z3 proves them equal for all contents; identical texts are discharged syntactically. Exception classes across seeds and the two graph=True texts within one process are compared directly; the corpus includes calls that must be rejected (ambiguous shorthand, single-edit corruptions).",
         note="Hash seed / uuid are not solver variables (they act through CPython's string hashing and os.urandom underneath sympy/numpy). Corpus = program family of C01/C14.",
         tech="per-seed program extraction + SMT equivalence of the generated programs",
         ref="DESIGN.md §3 C16",
